@@ -62,6 +62,16 @@ def _run_state(args):
 
         def stop_here(force_fields):
             # entry() builds the self mappings right after the user directories were combined: nothing else happens between
+            if not hasattr(force_fields, 'get'):
+                force_fields = {ff.name: ff for ff in force_fields}
+            captured['ff'] = {
+                'update': 'VRFA' in getattr(force_fields.get('martini3001'), 'blocks', {}),
+                'update-link': any(l.molecule_meta.get('verif') == 'a' for l in getattr(force_fields.get('martini3001'), 'links', [])),
+                'new': 'VRFB' in getattr(force_fields.get('veriffield'), 'blocks', {}),
+                'kept': 'GLY' in getattr(force_fields.get('martini3001'), 'blocks', {}),
+                'elsewhere': any('VRFA' in ff.blocks or 'VRFB' in ff.blocks for n, ff in force_fields.items()
+                                 if n not in ('martini3001', 'veriffield')),
+            }
             raise _Stop()
         orig_combine = mod.combine_mappings
 
@@ -70,8 +80,18 @@ def _run_state(args):
             return orig_combine(known, partial)
         mod.combine_mappings = spy
         mod.generate_all_self_mappings = stop_here
+        # a user force-field directory as well: one sub-directory named like a SHIPPED force field (its files extend that force
+        # field), one with a new name (a new force field)
+        ffd = os.path.join(base, 'ffd')
+        os.makedirs(os.path.join(ffd, 'martini3001'))
+        os.makedirs(os.path.join(ffd, 'veriffield'))
+        with open(os.path.join(ffd, 'martini3001', 'extra.ff'), 'w') as fh:
+            fh.write('[ moleculetype ]\nVRFA 1\n[ atoms ]\n1 P1 1 VRFA A 1 0\n2 P1 1 VRFA B 2 0\n[ bonds ]\nA B 1 0.3 1000\n'
+                     '[ link ]\n[ molmeta ]\nverif "a"\n[ bonds ]\nBB +BB 1 0.31 1000\n')
+        with open(os.path.join(ffd, 'veriffield', 'blk.ff'), 'w') as fh:
+            fh.write('[ moleculetype ]\nVRFB 1\n[ atoms ]\n1 P1 1 VRFB A 1 0\n')
         argv = ['martinize2', '-f', os.path.join(common.REPO, 'vermouth/tests/data/integration_tests/tier-0/dipro-termini/aa.pdb'),
-                '-x', os.path.join(base, 'cg.pdb'), '-ff', 'martini3001', '-map-dir', dirs[0], '-map-dir', dirs[1]]
+                '-x', os.path.join(base, 'cg.pdb'), '-ff', 'martini3001', '-map-dir', dirs[0], '-map-dir', dirs[1], '-ff-dir', ffd]
         old = list(sys.argv)
         sys.argv = argv
         err = ''
@@ -92,6 +112,8 @@ def _run_state(args):
                     got[key] = _tag(table['charmm'][to][name].mapping)
                 except KeyError:
                     got[key] = -1
+        if got:
+            got['ff-dir'] = captured.get('ff')
         return idx, got, err
     finally:
         shutil.rmtree(base, ignore_errors=True)
@@ -121,6 +143,9 @@ def run_part(tier, seed, ev, vd):
         ev.traces += 1
         ev.evaluations += 1
         exp = {k: st['out'][k] for k in KEYS}
+        # -ff-dir: every declared block / link is loaded exactly where it was declared (the shipped force field of that name is
+        # extended and keeps what it had, the new name is a new force field, no other force field gets the blocks)
+        exp['ff-dir'] = {'update': True, 'update-link': True, 'new': True, 'kept': True, 'elsewhere': False}
         sc = {'part': 'map-dirs', 'dirs': [sorted(st['d'][0]), sorted(st['d'][1])], 'expected': exp, 'got': got, 'err': err}
         if err or not got:
             vd.violation('replay-mismatch', sc, 'martinize2 -map-dir d1 -map-dir d2 did not reach the end of the loading phase: %s' % err)
